@@ -241,7 +241,7 @@ def run_sequences(chk, scratch, vs):
             cur = rng.choice(["1.0.0", "v1.0.0", "9.9.9", "bogus"])
             since_notice = None        # simulated seconds since the last printed notice
             for step in range(rng.randrange(2, 7)):
-                skip = rng.choice(["0", "0", "0", "1", "2", "3"])
+                skip = rng.choice(["0", "0", "0", "0", "1", "2", "3", "4", "5", "6"])
                 ln = "upd due %s %s %s %d %s %d" % (skip, hx(cur), present, age_c, hx(lat), age_n)
                 a, b = hp.ask(ln), dp.ask(ln)
                 chk.count(("seq", ln) if a.startswith("1") else None)
